@@ -1131,6 +1131,15 @@ func genCase(t *rapid.T) histCase {
 				continue
 			}
 		}
+		if kind != "commit" && kind != "rollback" && fw.Pct(t, "wrap", 35) {
+			n := 1
+			if fw.Pct(t, "wrap2", 35) {
+				n = 2
+			}
+			for i := 0; i < n; i++ {
+				op.Wrap = append(op.Wrap, []string{"if", "case", "while", "func"}[fw.Weighted(t, "wrapper", []int{30, 20, 25, 25})])
+			}
+		}
 		g.accept(op)
 	}
 	c.Ops = g.ops
@@ -1143,11 +1152,15 @@ func genCase(t *rapid.T) histCase {
 type stepExp struct {
 	op         opT
 	sql        string
+	prog       string // the program text executed: the statement, possibly inside control flow
 	ef         *effect
 	after      *model // all tables after the step
 	committed  *model // commit: the committed state
 	stdinAgain bool   // a second for-update statement on STDIN inside one transaction
 }
+
+// text: the program text of the step as executed.
+func (st stepExp) text() string { return strings.TrimSuffix(st.prog, ";") }
 
 // expectations runs the model over the history; the history is cut at the
 // first operation outside the modelled fragment.
@@ -1184,6 +1197,16 @@ func expectations(c histCase) ([]stepExp, string) {
 			}
 		}
 		st.sql = nm.sql(op)
+		st.prog = st.sql + ";"
+		if len(op.Wrap) > 0 {
+			if op.K == "commit" || op.K == "rollback" {
+				return steps, "wrapped transaction statement"
+			}
+			var ok bool
+			if st.prog, ok = wrapSQL(st.sql, op.Wrap, len(steps)); !ok {
+				return steps, "wrapper"
+			}
+		}
 		st.after = cur.clone()
 		steps = append(steps, st)
 	}
@@ -1371,7 +1394,7 @@ func (r *runner) compareAll(st stepExp) *fw.Violation {
 		want := st.after.tabs[t]
 		got, err := r.selectAll(r.s, t)
 		if err != nil {
-			return fw.V("select_after_"+st.op.K+"_error", "SELECT * FROM %s after %q failed: %v%s", t, st.sql, err, r.tail())
+			return fw.V("select_after_"+st.op.K+"_error", "SELECT * FROM %s after %q failed: %v%s", t, st.text(), err, r.tail())
 		}
 		d := diffTable(want, got)
 		if d == "" {
@@ -1385,7 +1408,7 @@ func (r *runner) compareAll(st stepExp) *fw.Violation {
 			sig = "replace_unmatched_order"
 			d = fmt.Sprintf("the %d given rows without a matching record were appended in another order than given", st.ef.appended)
 		}
-		return fw.V(sig, "table %s after %q: %s\n    got\n%s    expected\n%s%s", t, st.sql, d, showTable(got.Header, got.Rows), showTable(want.Cols, want.Rows), r.tail())
+		return fw.V(sig, "table %s after %q: %s\n    got\n%s    expected\n%s%s", t, st.text(), d, showTable(got.Header, got.Rows), showTable(want.Cols, want.Rows), r.tail())
 	}
 	return nil
 }
@@ -1466,9 +1489,9 @@ func (r *runner) finish() {
 
 func (r *runner) step(st stepExp) *fw.Violation {
 	r.s.Out.Reset()
-	res := r.s.Exec(st.sql + ";")
+	res := r.s.Exec(st.prog)
 	out := r.s.Out.String()
-	line := st.sql
+	line := strings.TrimSuffix(st.prog, ";")
 	if res.Err != nil {
 		line += "   -> " + run.ErrClass(res.Err) + " " + res.Err.Error()
 	} else {
@@ -1476,7 +1499,7 @@ func (r *runner) step(st stepExp) *fw.Violation {
 	}
 	r.note("%s", line)
 	if res.ParseErr {
-		return fw.Harness("generated statement does not parse: %s: %v", st.sql, res.Err)
+		return fw.Harness("generated statement does not parse: %s: %v", st.text(), res.Err)
 	}
 	if res.Err != nil {
 		msg := res.Err.Error()
@@ -1487,7 +1510,7 @@ func (r *runner) step(st stepExp) *fw.Violation {
 		case strings.Contains(msg, "file  does not exist"):
 			sig = "from_subquery_poisons_fileinfo"
 		}
-		return fw.V(sig, "%q failed: %s %v; the model expects it to succeed%s", st.sql, run.ErrClass(res.Err), res.Err, r.tail())
+		return fw.V(sig, "%q failed: %s %v; the model expects it to succeed%s", st.text(), run.ErrClass(res.Err), res.Err, r.tail())
 	}
 	switch st.op.K {
 	case "commit":
@@ -1520,26 +1543,27 @@ func (r *runner) step(st stepExp) *fw.Violation {
 	ef := st.ef
 	if ef.verb != "" {
 		// the reported number of affected records
-		if res.Affected != ef.total {
-			return fw.V(st.op.K+"_count", "%q reported %d affected records; the statement %s %d%s", st.sql, res.Affected, ef.verb, ef.total, r.tail())
+		// (statements inside blocks run on child processors, which do not store it: there only the log line)
+		if len(st.op.Wrap) == 0 && res.Affected != ef.total {
+			return fw.V(st.op.K+"_count", "%q reported %d affected records; the statement %s %d%s", st.text(), res.Affected, ef.verb, ef.total, r.tail())
 		}
 		seen := map[string]bool{}
 		for _, l := range parseLog(out) {
 			t := r.pathTable(l.path)
 			if t == "" {
-				return fw.V(st.op.K+"_log_table", "%q logged %q, not a table of the statement%s", st.sql, l.path, r.tail())
+				return fw.V(st.op.K+"_log_table", "%q logged %q, not a table of the statement%s", st.text(), l.path, r.tail())
 			}
 			if l.verb != ef.verb {
-				return fw.V(st.op.K+"_log_verb", "%q logged records %s, expected %s%s", st.sql, l.verb, ef.verb, r.tail())
+				return fw.V(st.op.K+"_log_verb", "%q logged records %s, expected %s%s", st.text(), l.verb, ef.verb, r.tail())
 			}
 			if l.n != ef.counts[t] || seen[t] {
-				return fw.V(st.op.K+"_log_count", "%q logged %d record(s) %s on %s; the statement %s %d there%s", st.sql, l.n, l.verb, t, ef.verb, ef.counts[t], r.tail())
+				return fw.V(st.op.K+"_log_count", "%q logged %d record(s) %s on %s; the statement %s %d there%s", st.text(), l.n, l.verb, t, ef.verb, ef.counts[t], r.tail())
 			}
 			seen[t] = true
 		}
 		for t, n := range ef.counts {
 			if n > 0 && !seen[t] {
-				return fw.V(st.op.K+"_log_missing", "%q logged nothing for %s (%d records %s): %q%s", st.sql, t, n, ef.verb, out, r.tail())
+				return fw.V(st.op.K+"_log_missing", "%q logged nothing for %s (%d records %s): %q%s", st.text(), t, n, ef.verb, out, r.tail())
 			}
 		}
 	}
@@ -1624,7 +1648,17 @@ func checkHist(c histCase) (fw.Outcome, *fw.Violation) {
 		ef := st.ef
 		class("op:" + st.op.K)
 		if c.naming().kind[st.op.T] == "stdin" {
-			class("on_stdin:" + st.op.K)
+			class("on_stdin")
+		}
+		if len(st.op.Wrap) > 0 {
+			for _, w := range st.op.Wrap {
+				class("wrap:" + w)
+			}
+			if len(st.op.Wrap) > 1 {
+				class("wrap:nested")
+			}
+			class("wrapped:" + c.naming().kind[st.op.T])
+			tok = strings.Join(st.op.Wrap, ">") + ">" + tok
 		}
 		{
 			reads, corr, any := map[string]bool{}, false, false
@@ -1745,11 +1779,12 @@ func TestC05History(t *testing.T) {
 	fw.Run(t, fw.Spec[histCase]{
 		ID: "C05", Name: "dml_history", Quick: 10000, Thorough: 200000,
 		Gen: genCase, Check: checkHist,
-		Rule: "tables t (CSV file, temporary table or STDIN) and optionally u (file or temporary table), 2-4 columns (integer-like id/v/w, string s; NULLs, duplicate ids), 0-6 rows, and a history of 3-12 statements generated up front next to a live copy of the model: INSERT VALUES (column subset / permuted list), INSERT SELECT (expressions, WHERE, ORDER BY on a total order; other table or itself), UPDATE (1-2 SET items), scalar subqueries (SUM/MAX/MIN/COUNT/single value over the target or the other table, optionally correlated) in SET values, WHERE clauses of UPDATE/DELETE and in INSERT/REPLACE..SELECT (all read the state before the statement), UPDATE..FROM (JOIN / LEFT JOIN / comma join, aliases, one or two targets), DELETE, multi-table DELETE, REPLACE USING(1-2 keys) VALUES / SELECT, ALTER TABLE ADD (one/several, DEFAULT literal/expression, FIRST/LAST/BEFORE/AFTER) / DROP / RENAME, COMMIT, ROLLBACK; predicates (relational operators, AND/OR/NOT, IS NULL, IN, arithmetic) are aimed at strict non-empty subsets. Each history is executed statement by statement on one in-process session at --cpu 1 and again at --cpu 4; after every step SELECT * of every table equals the model (column names and order, row order, cell text, NULL-ness), Tx.AffectedRows and the 'N record(s) <verb> on <table>' log lines equal the model's inserted/matched/removed counts; after COMMIT every file re-read by a fresh session equals the model; after ROLLBACK the model is the last committed state. Non-trivial = at least 3 data-changing steps of at least 2 kinds, one of which matches a strict non-empty subset of its target's rows; distinct by (table kinds, sequence of rule names with their match class)",
+		Rule: "tables t (CSV file, temporary table or STDIN) and optionally u (file or temporary table), 2-4 columns (integer-like id/v/w, string s; NULLs, duplicate ids), 0-6 rows, and a history of 3-12 statements generated up front next to a live copy of the model: INSERT VALUES (column subset / permuted list), INSERT SELECT (expressions, WHERE, ORDER BY on a total order; other table or itself), UPDATE (1-2 SET items), scalar subqueries (SUM/MAX/MIN/COUNT/single value over the target or the other table, optionally correlated) in SET values, WHERE clauses of UPDATE/DELETE and in INSERT/REPLACE..SELECT (all read the state before the statement), UPDATE..FROM (JOIN / LEFT JOIN / comma join, aliases, one or two targets), DELETE, multi-table DELETE, REPLACE USING(1-2 keys) VALUES / SELECT, ALTER TABLE ADD (one/several, DEFAULT literal/expression, FIRST/LAST/BEFORE/AFTER) / DROP / RENAME, COMMIT, ROLLBACK; 35% of the data-changing statements run inside control flow executing them exactly once (IF, CASE, WHILE with a counter, a user function body called once; nested up to two deep), the model being that of the bare statement; predicates (relational operators, AND/OR/NOT, IS NULL, IN, arithmetic) are aimed at strict non-empty subsets. Each history is executed statement by statement on one in-process session at --cpu 1 and again at --cpu 4; after every step SELECT * of every table equals the model (column names and order, row order, cell text, NULL-ness), Tx.AffectedRows and the 'N record(s) <verb> on <table>' log lines equal the model's inserted/matched/removed counts; after COMMIT every file re-read by a fresh session equals the model; after ROLLBACK the model is the last committed state. Non-trivial = at least 3 data-changing steps of at least 2 kinds, one of which matches a strict non-empty subset of its target's rows; distinct by (table kinds, sequence of rule names with their match class)",
 		Assumptions: []string{
 			"UPDATE counts the records matched by the condition (changed or not), per property statement; REPLACE counts the records whose key matched plus the rows appended",
 			"SET expressions never read a column assigned by another SET item of the same statement (evaluation order not documented); a record to update that is joined more than once, updating the NULL-extended side of a LEFT JOIN, ORDER BY keys with ties or NULLs, REPLACE rows with duplicate or NULL keys are outside the modelled fragment: the history is cut there (measured as history_cut:*)",
 			"a scalar subquery inside a data-changing statement reads the tables as they were before the statement (the manual says nothing else; textbook semantics); SUM returns a float whose text equals the integer sum (cells are compared by text)",
+			"a statement inside IF / CASE / WHILE / a function body changes the tables of the enclosing scopes exactly as the bare statement does (temporary-table.md, control-flow.md: only declarations are local to a block); Tx.AffectedRows is not stored by child processors, inside blocks only the log line is compared",
 			"tables keep at least two columns (a one-column record with a NULL cell is a blank CSV line: C02)",
 			"the row order of SELECT over one table of at most 10 rows is the table's row order at --cpu 1 and --cpu 4",
 			"avoidReplaceUnmatchedOrder: REPLACE is generated with at most one row that matches no record (known open defect: several such rows are appended in Go-map order)",
